@@ -105,6 +105,12 @@ func RunC09(t *testing.T, tape *Tape) *Outcome {
 	// goroutines behind (a second activation of the actor tree); the later
 	// cancellation concerns every interpreted goroutine
 	background := entry == 3 && tape.Choose(3) == 2
+	// REPL style: a second host goroutine evaluates another activation of the
+	// actor tree on the same interpreter under the SAME context, concurrently
+	// (the session goes on only when both have returned: a follow-up evaluation
+	// started while the second caller has not yet run its stop() would be cancelled
+	// by it — one generation counter per interpreter — which is not what is judged)
+	twin := entry == 3 && !background && !earlyFollow && tape.Choose(4) == 3
 	prog := GenC09Imp(tape, mode == 3, withImport)
 	cfg := SchedCfg(tape, true)
 	cfg.MaxOps = 1500
@@ -123,6 +129,10 @@ func RunC09(t *testing.T, tape *Tape) *Outcome {
 		o.Desc += " +goroutines-of-earlier-eval"
 		o.Detail["background_goroutines"] = true
 	}
+	if twin {
+		o.Desc += " +concurrent-evaluation-under-the-same-context"
+		o.Detail["twin_evaluation"] = true
+	}
 	if withImport {
 		o.Desc += " +source-import"
 		o.Detail["source_import"] = true
@@ -132,6 +142,9 @@ func RunC09(t *testing.T, tape *Tape) *Outcome {
 	var ret c09Ret
 	var ret2 c09Ret
 	var ret3 c09Ret // call given the already cancelled context again
+	var retT c09Ret // the concurrent twin evaluation
+	var twinPanic any
+	var clientPanic any // a panic of the interpreter's entry point in the calling host goroutine
 	var ctx context.Context
 	var eventsAtCancel int
 	var inter *interp.Interpreter
@@ -196,7 +209,33 @@ func RunC09(t *testing.T, tape *Tape) *Outcome {
 		if entry != 3 {
 			arm()
 		}
+		ready := make(chan struct{})
+		if twin {
+			r.Spawn("c1", func() {
+				defer func() {
+					if p := recover(); p != nil {
+						if _, ok := p.(abortSentinel); ok {
+							panic(p)
+						}
+						twinPanic = p
+					}
+					retT.done.Store(true)
+				}()
+				<-ready
+				retT.v, retT.err = inter.EvalWithContext(ctx, "Twin_()")
+			})
+		}
 		r.WatchClient(r.Spawn("c0", func() {
+			defer func() {
+				if p := recover(); p != nil {
+					if _, ok := p.(abortSentinel); ok {
+						panic(p)
+					}
+					clientPanic = p
+					r.MarkReturned()
+					r.Finish()
+				}
+			}()
 			switch entry {
 			case 0:
 				ret.v, ret.err = inter.EvalWithContext(ctx, prog.Src)
@@ -218,6 +257,9 @@ func RunC09(t *testing.T, tape *Tape) *Outcome {
 				if background {
 					decls += fmt.Sprintf("\nfunc Bg_() {\n\tgo actor%d()\n}\n", prog.Root)
 				}
+				if twin {
+					decls += fmt.Sprintf("\nfunc Twin_() {\n\thost.Tick(802)\n\tactor%d()\n\thost.Tick(803)\n}\n", prog.Root)
+				}
 				// (EvalWithContext, as the yaegi REPL does, so that the declarations are
 				// compiled in the cancellable channel mode the property is about.)
 				if _, compileErr = inter.EvalWithContext(context.Background(), decls); compileErr != nil {
@@ -231,6 +273,7 @@ func RunC09(t *testing.T, tape *Tape) *Outcome {
 					}
 				}
 				arm() // k counts from the start of the cancellable call
+				close(ready)
 				ret.v, ret.err = inter.EvalWithContext(ctx, "Main_()")
 			}
 			r.MarkReturned()
@@ -251,7 +294,7 @@ func RunC09(t *testing.T, tape *Tape) *Outcome {
 		if !r.Cancelled.Load() || r.aborting.Load() || entry != 3 || earlyFollow {
 			return
 		}
-		r.Spawn("c1", func() {
+		r.Spawn("c2", func() {
 			ret2.v, ret2.err = inter.EvalWithContext(context.Background(), "1+1")
 			ret2.done.Store(true)
 		})
@@ -383,6 +426,14 @@ func RunC09(t *testing.T, tape *Tape) *Outcome {
 
 	// I1
 	want := wantErr
+	if clientPanic != nil {
+		msg := fmt.Sprint(clientPanic)
+		if len(msg) > 120 {
+			msg = msg[:120]
+		}
+		o.addV("C09", "I1", "I1 call-panicked phase="+phase, "%s panicked in the calling goroutine: %s", entryName[entry], msg)
+		return o
+	}
 	switch {
 	case !ret.done.Load() && r.BudgetHit:
 		// reported below as still-running
@@ -399,7 +450,7 @@ func RunC09(t *testing.T, tape *Tape) *Outcome {
 	}
 	// I3, I4
 	for _, tk := range tasks {
-		if tk.Client || !strings.HasPrefix(tk.Name, "c0.") || (r.TasksAtReturn > 0 && tk.idx >= r.TasksAtReturn) {
+		if tk.Client || !(strings.HasPrefix(tk.Name, "c0.") || strings.HasPrefix(tk.Name, "c1.")) || (r.TasksAtReturn > 0 && tk.idx >= r.TasksAtReturn) {
 			continue
 		}
 		if tk.OpsPostFault > 1 {
@@ -450,11 +501,29 @@ func RunC09(t *testing.T, tape *Tape) *Outcome {
 		o.addV("C09", "I5", "I5 still-running phase="+phase, "tasks kept executing after the cancellation until the step budget was exhausted")
 	}
 	for _, tk := range tasks {
-		if tk.Client || !strings.HasPrefix(tk.Name, "c0.") || (r.TasksAtReturn > 0 && tk.idx >= r.TasksAtReturn) || !contains(res.Left, tk.Name) || r.BudgetHit {
+		if tk.Client || !(strings.HasPrefix(tk.Name, "c0.") || strings.HasPrefix(tk.Name, "c1.")) || (r.TasksAtReturn > 0 && tk.idx >= r.TasksAtReturn) || !contains(res.Left, tk.Name) || r.BudgetHit {
 			continue
 		}
 		o.addV("C09", "I5", fmt.Sprintf("I5 goroutine-not-exited phase=%s body=%s", phase, kindOf(tk)),
 			"task %s (%s) never exited after the cancellation (state at end: %s)", tk.Name, kindOf(tk), r.describeTask(tk))
+	}
+	// I8: the concurrent evaluation under the same context
+	if twin {
+		o.FaultFired["concurrent-evaluation-under-the-same-context"]++
+		switch {
+		case twinPanic != nil:
+			msg := fmt.Sprint(twinPanic)
+			if len(msg) > 120 {
+				msg = msg[:120]
+			}
+			o.addV("C09", "I8", "I8 concurrent-evaluation panicked", "the second EvalWithContext under the same context panicked in its caller: %s", msg)
+		case !retT.done.Load():
+			if !r.BudgetHit {
+				o.addV("C09", "I8", "I8 concurrent-evaluation never-returned", "the second EvalWithContext under the same context did not return after the cancellation")
+			}
+		case retT.err != wantErr:
+			o.addV("C09", "I8", "I8 concurrent-evaluation wrong-error", "the second EvalWithContext under the same context returned %v (value %v), want %v", retT.err, retT.v, wantErr)
+		}
 	}
 	// I7: an evaluation given an already cancelled context
 	if reuseCtx && ret3.done.Load() {
